@@ -102,7 +102,7 @@ PROPS = {
         "traced_too": True,
         'coq': 'Properties/C02.v',
         'streams': ['loop', 'loopadv'],
-        'level_text': "C02_create / C02_measure characterise one dispatch step against the flat (address, flow id) -> handler view for every state, message, user behaviour and send-failure pattern (fresh handler per create with the message's details, replaced handler dropped without close, measurement delivered to exactly the bound handler with uid and values intact, empty measurement closes once and unbinds, unknown datapath/flow: nothing); C02_handlers_distinct gives distinct, never-reused handler identities in every reachable state.",
+        'level_text': "C02_create / C02_measure characterise one dispatch step against the flat (address, flow id) -> handler view for every state, message, user behaviour and send-failure pattern (fresh handler per create with the message's details, replaced handler dropped without close, measurement delivered to exactly the bound handler with uid and values intact, empty measurement closes once and unbinds, unknown datapath/flow: nothing); C02_handlers_distinct gives distinct, never-reused handler identities in every reachable state. C02_the_history_is_what_the_datagrams_decode_to / C02_every_run_ends_in_a_good_state (Runtime/RunTrace.v): what the executable run_model emits is the effects of the trace of a history from the initial state followed by the final drops; that history is what the script's datagrams decode to one at a time (spec_run) up to a step that ended the run; the state it ends in satisfies the handler invariants. So the step and history theorems are theorems about every run.",
         'level_note': 'Coq kernel; no axioms; hand-written model of run_inner (src/run.rs), Datapath/Report (src/lib.rs) and Backend::next, with user callbacks and send failures as arbitrary oracles; tied to the code by running RunBuilder::run inline over a scripted Ipc with recording algorithms on the same histories (model and implementation logs compared after sorting hash-ordered DROP/INSTALL batches and renaming uids through the install messages). Assumes handles are used only inside the three callbacks.',
         'rule': 'structured random histories over 3 addresses x 4 flow ids: ready / create (9 algorithm names incl. prefixes, extensions, empty, 63 bytes) / measurement for live and dead flows / close / unknown, 1-4 messages per datagram (occasionally 10-14, exceeding the 1024-byte buffer), restarts, re-creates, receive errors, stop requests; 0-3 additional algorithms with duplicate names and absent instances, 6 table programs incl. a duplicate name and an uncompilable one; callbacks issue set_program/update_field/get_field lists; non-trivial = at least one report delivered or handler closed',
         'assumptions': ["a flow's datapath handle is used only inside new_flow / on_report / close (not from Drop, not smuggled out)", 'program uids are canonicalised through the install messages; DROP and INSTALL batches are sorted before comparison (HashMap order)'],
@@ -112,7 +112,7 @@ PROPS = {
         "traced_too": True,
         'coq': 'Properties/C05.v',
         'streams': ['loop', 'loopadv'],
-        'level_text': 'C05_use_after_install proves over the interleaved trace of every history (all user behaviours, all send-failure patterns) that each change-program names a uid installed at its destination since that destination last said ready; C05_ready_installs_all / C05_create_installs_first give the exact install policy. C05_partial_program_set_never_runs (Runtime/StartFacts.v): when one offered program does not compile or its install message cannot be encoded, the run ends with an error before the receive loop and its only effect is closing the transport: a set is installed whole or the runtime does not run.',
+        'level_text': 'C05_use_after_install proves over the interleaved trace of every history (all user behaviours, all send-failure patterns) that each change-program names a uid installed at its destination since that destination last said ready; C05_ready_installs_all / C05_create_installs_first give the exact install policy. C05_partial_program_set_never_runs (Runtime/StartFacts.v): when one offered program does not compile or its install message cannot be encoded, the run ends with an error before the receive loop and its only effect is closing the transport: a set is installed whole or the runtime does not run. C05_every_run_is_a_trace_with_install_before_use (Runtime/RunTrace.v): every run of the executable model is such a trace (or refused to start), so install-before-use holds of every run.',
         'level_note': 'Coq kernel; no axioms; hand-written model of run_inner (src/run.rs), Datapath/Report (src/lib.rs) and Backend::next, with user callbacks and send failures as arbitrary oracles; tied to the code by running RunBuilder::run inline over a scripted Ipc with recording algorithms on the same histories (model and implementation logs compared after sorting hash-ordered DROP/INSTALL batches and renaming uids through the install messages). Assumes handles are used only inside the three callbacks.',
         'rule': 'structured random histories over 3 addresses x 4 flow ids: ready / create (9 algorithm names incl. prefixes, extensions, empty, 63 bytes) / measurement for live and dead flows / close / unknown, 1-4 messages per datagram (occasionally 10-14, exceeding the 1024-byte buffer), restarts, re-creates, receive errors, stop requests; 0-3 additional algorithms with duplicate names and absent instances, 6 table programs incl. a duplicate name and an uncompilable one; callbacks issue set_program/update_field/get_field lists; non-trivial = at least one change-program sent',
         'assumptions': ["a flow's datapath handle is used only inside new_flow / on_report / close (not from Drop, not smuggled out)", 'program uids are canonicalised through the install messages; DROP and INSTALL batches are sorted before comparison (HashMap order)'],
@@ -279,7 +279,7 @@ PROPS = {
         "traced_too": True,
         "coq": "Properties/C01.v",
         "level_text": "PROVED end to end on the model: C01_compile_correct. For every source text in the property's quantifier (accepted by the compiler and by the datapath, well typed under "
-                      "the documented discipline, no operand overwritten before use, no legacy-infinity initial value) and every finite sequence of 64-bit measurement vectors, the image the compiler model "
+                      "the documented discipline -- which includes a bind whose target is itself a bind, with the left-to-right meaning (C01_example_bind_into_a_bind) --, no operand overwritten before use, no legacy-infinity initial value) and every finite sequence of 64-bit measurement vectors, the image the compiler model "
                       "emits, wrapped in the install message, read by the libccp model, selected by a change-program message and run, yields invocation by invocation the same fault code, window and rate "
                       "settings, report contents and variable values as the source semantics (an independent tree-walking evaluator over names). Layers proved separately for all register states: "
                       "C01_expression_simulation, C01_events_simulation; C01_operators_agree; each hypothesis is shown necessary by a refutation witness (C01_clobbers_refuted: the recorded finding; "
@@ -306,7 +306,7 @@ PROPS = {
                       "instruction writes implicit register 0, defined opcodes, writable result class, register indices inside the files, temporaries read only after being written in the same block. "
                       "The proof goes through the character-level parser (no parsed name begins with __), the scope invariants of the declarations and overrides, and compile_expr/compile_flag/compile_body. "
                       "The earlier component theorems (C03_image_length, C03_preamble_then_tiling, C03_condition_block_writes_flag, C03_registers_within_files, C03_opcodes_defined) remain. "
-                      "image_wf is also evaluated on every image portus produces in the streams, and every image of the dp stream is loaded by the real libccp.",
+                      "image_wf is also evaluated on every image portus produces in the streams, and every image of the dp stream is loaded by the real libccp. C03_one_initialisation_per_literal_declaration (Lang/DefCount.v): for every source text compiled without overrides, the instruction list holds exactly as many DEF instructions as the (def ...) form has declarations with a numeric or boolean literal, whatever the declared names are.",
         "level_note": LANG_NOTE,
         "streams": ["limits", "compile"],
         "rule": "programs at and one beyond each register limit (15/16/17 report and control variables, 5/6/7 locals, 1..11 operator nodes in three shapes in statement and condition position), "
@@ -354,12 +354,29 @@ _R6 = {
     "C19": "c19: a backlog queued on the polling channel transport comes out one datagram per receive; unixapi: sender bound to a relative path, to a path that is not UTF-8, to an absolute path: reported verbatim",
     "C20": "comment texts that are empty, blank, look like code, or contain a lone carriage return",
 }
+_R7 = {
+    "C03": "declarations named like datapath registers or like literals; the number of DEF records is compared with the declarations that have a literal initial value (read by the model's parser)",
+    "C06": "the literal stream (c14) also runs under C06: a constant the immediate field cannot say must make the install message fail",
+    "C07": "names containing U+FFFD, a byte-order mark, DEL, U+10FFFF, a zero-width space",
+    "C08": "the buffer is placed 0..3 bytes off a word boundary (chosen by the script); stop requests inside scripts, after which the flag is set again once and reading goes on (nothing may have been taken off the transport meanwhile)",
+    "C09": "unixapi (sender addresses verbatim) also runs under C09",
+    "C11": "apiorder also runs under C11: a command through a handle that outlived the run must be an error",
+    "C13": "locals first bound inside a when-condition; every name the source binds must be in the returned scope",
+    "C14": "override lists in which entries the compiler does not apply (reserved, undeclared, register, local names) precede the override",
+    "C15": "the 63-byte registered name contains a two-byte character",
+    "C17": "every way of copying a scope (clone, clone_from onto a scope of another compilation, to_owned, containers) keeps the uid",
+    "C18": "apiorder: the request is still readable from the handle after the run; two runtimes given one handle both end; a handle kept beyond the run",
+    "C19": "c19: Backend over the channel transport with its buffer at offsets 0..3 and messages of exactly the buffer's size",
+    "C20": "comment texts with 2-, 3- and 4-byte characters followed by code-like text",
+}
 _TRACED = ("every stream is run a second time under a tracing subscriber that enables every level and call site "
            "(HARNESS_TRACE=1, the `traced` profile): the library's log statements are evaluated and the results must not change")
 for _pid, _cfg in PROPS.items():
     _add = []
     if _pid in _R6:
         _add.append(_R6[_pid])
+    if _pid in _R7:
+        _add.append(_R7[_pid])
     if _cfg.get("traced_too"):
         _add.append(_TRACED)
     if _add:
